@@ -126,6 +126,16 @@ class BuiltinMixin:
             if self.branch(v.t.is_none(v.z)):
                 return mk_str_const('None')
             return self.bi_str([V(v.t.inner, v.t.val(v.z))], kwargs, node)
+        hook = self.spec.callbacks.get('str_of_any')
+        if hook is not None:
+            if isinstance(v.t, TAny):
+                return hook(self, v)
+            if isinstance(v.t, TOpt) and isinstance(v.t.inner, TAny):
+                if self.spec_mode:
+                    return hook(self, V(v.t.inner, v.t.val(v.z)))
+                if self.branch(v.t.is_none(v.z)):
+                    return mk_str_const('None')
+                return hook(self, V(v.t.inner, v.t.val(v.z)))
         return self.opaque_str()
 
     def bi_repr(self, args, kwargs, node):
@@ -375,6 +385,13 @@ class BuiltinMixin:
             if name == 'keys':
                 return Py('pytuple', tuple(mk_str_const(k) for k in d))
             raise Unsupported('dict method %s' % name)
+        if is_py(recv, 'pydict'):
+            if name == 'get' and args and args[0].t is TInt and concrete_int(args[0].z) is not None:
+                for k, v in recv.py[1]:
+                    if concrete_int(k.z) == concrete_int(args[0].z):
+                        return v
+                return args[1] if len(args) > 1 else NONE
+            raise Unsupported('dict display method %s' % name)
         if isinstance(t, TRef):
             return self.obj_method_builtin(recv, t.cls, name, args, kwargs)
         raise Unsupported('method %s of %s' % (name, t))
